@@ -25,6 +25,11 @@
 (*               (, tail |-> "?" | "?a=1" | "?a=1#top" | "#top"  -- what follows the     *)
 (*                 path in the request URL: query marker, query, fragment; not part of   *)
 (*                 the path, so the contract never looks at it)                          *)
+(*               (, form |-> "server"  -- the request object is built the way net/http    *)
+(*                 hands one to a server's handler: the URL field holds the path (and    *)
+(*                 query) only, the host[:port] is in Request.Host, https shows as a     *)
+(*                 non-nil Request.TLS.  It is the same request URL -- the contract does *)
+(*                 not look at the form -- in another representation)                    *)
 (*   request   : [m |-> "GET", u |-> url]                                                *)
 (*   observation (what FindRoute did):                                                   *)
 (*        [k |-> "route", path |-> "/a/{x}", m, op, params |-> <<[n |-> "x", v |-> "v"]>>*)
@@ -107,6 +112,7 @@ ServerURL(s) ==
    \o PathStr(BaseStrs(s)) \o (IF s.slash THEN "/" ELSE "")
 
 UTail(u) == IF "tail" \in DOMAIN u THEN u.tail ELSE ""
+UForm(u) == IF "form" \in DOMAIN u THEN u.form ELSE "client"
 BareURLStr(u) ==
    (IF u.abs THEN u.scheme \o "://" \o JoinDot(u.host) \o (IF Len(u.port) = 0 THEN "" ELSE ":" \o u.port[1])
     ELSE "")
@@ -495,8 +501,17 @@ LegacySees(sv, u, r, wirePath) ==
    ELSE IF FragGlued(u) /\ Len(r) > 0 THEN [r EXCEPT ![Len(r)] = r[Len(r)] \o "#top"]
    ELSE r
 
-LegacyObs(doc, req, nonEmptyVars, keepSlash, methodGuard, wirePath) ==
-   LET u == req.u
+(* The legacy router reads Request.URL only (seesHost = FALSE, the pinned code): of a       *)
+(* request in server form it sees the path alone, a relative URL, whatever Host and TLS    *)
+(* say; seesHost = TRUE is the design that routes the request URL in either form.          *)
+LegacyView(u, seesHost) ==
+   IF UForm(u) = "server" /\ ~seesHost
+   THEN [f \in (DOMAIN u \ {"scheme", "host", "port"}) |-> IF f = "abs" THEN FALSE ELSE u[f]]
+   ELSE u
+
+LegacyObsH(doc, req0, nonEmptyVars, keepSlash, methodGuard, wirePath, seesHost) ==
+   LET req == [req0 EXCEPT !.u = LegacyView(req0.u, seesHost)]
+       u == req.u
        S == ServersOf(doc)
        hits == {i \in 1..Len(S) : IF IsNone(S[i]) THEN TRUE ELSE LegacySrvMatch(S[i], u)}
    IN IF hits = {} THEN NotFound
@@ -510,13 +525,15 @@ LegacyObs(doc, req, nonEmptyVars, keepSlash, methodGuard, wirePath) ==
               ELSE IF \E t \in 1..Len(doc.templates) : TemplStr(doc.templates[t]) = PathStr(r)
                    THEN (IF req.m \in Std9 \/ methodGuard THEN MethodNotAllowed ELSE [k |-> "panic"])
                    ELSE NotFound
+LegacyObs(doc, req, nonEmptyVars, keepSlash, methodGuard, wirePath) ==
+   LegacyObsH(doc, req, nonEmptyVars, keepSlash, methodGuard, wirePath, TRUE)
 
 (* the models of the code as it is now: the switches of repaired defects are on                 *)
 (*   legacy methodGuard (F-C09-3, unknown-method panic) and mux localServers (F-C09-5, path-level *)
 (*   servers leak) were repaired by fix: commits in /repo; so was legacy wirePath (F-C09-7: the   *)
 (*   fragment is cut off like the query, F-C09-8: the escaped path is matched also without        *)
 (*   servers).  The old behaviours stay expressible through the switches (FALSE).                 *)
-CurLegacyObs(doc, req) == LegacyObs(doc, req, FALSE, FALSE, TRUE, TRUE)
+CurLegacyObs(doc, req) == LegacyObsH(doc, req, FALSE, FALSE, TRUE, TRUE, FALSE)
 CurMuxObs(doc, req) == MuxObsP(doc, req, FALSE, TRUE, TRUE)
 CurMuxBuilds(doc) == MuxBuilds(doc, TRUE, FALSE)
 
